@@ -94,9 +94,10 @@ enum St {
     Gh3264(dryoc::generichash::GenericHash<32, 64>),
     Gh3232Vec(dryoc::generichash::GenericHash<32, 32>),
     AuthC(AuthState),
-    AuthO(dryoc::auth::Auth),
+    /// (authenticator, verifier twin for the genuine code, verifier twin for a wrong candidate)
+    AuthO(dryoc::auth::Auth, dryoc::auth::Auth, dryoc::auth::Auth),
     OtaC(OnetimeauthState),
-    OtaO(dryoc::onetimeauth::OnetimeAuth),
+    OtaO(dryoc::onetimeauth::OnetimeAuth, dryoc::onetimeauth::OnetimeAuth, dryoc::onetimeauth::OnetimeAuth),
     ShaC(Sha512State),
     ShaO(dryoc::sha512::Sha512),
     SignC(SignerState, SignerState),
@@ -112,6 +113,41 @@ pub struct ChunkWorld {
     st: St,
     finalised: bool,
     n_events: usize,
+    /// object MAC flavours: (wrong candidate, accepted by the incremental verifier, accepted by the one-shot verifier)
+    parity: Option<(&'static str, bool, bool)>,
+}
+
+/// A code that is not the genuine one: a flipped bit, or the genuine code cut short / extended
+/// (the object API takes the code in a variable-length container).
+fn wrong_candidate(mac: &[u8], sel: usize) -> (&'static str, Vec<u8>) {
+    let mut v = mac.to_vec();
+    match sel % 7 {
+        0 => {
+            v[sel / 7 % mac.len()] ^= 1 << (sel % 8);
+            ("bit flipped", v)
+        }
+        1 => ("empty", Vec::new()),
+        2 => {
+            v.truncate(1);
+            ("first byte only", v)
+        }
+        3 => {
+            v.truncate(mac.len() / 2);
+            ("first half", v)
+        }
+        4 => {
+            v.truncate(mac.len() - 1);
+            ("last byte missing", v)
+        }
+        5 => {
+            v.push(0);
+            ("one byte appended", v)
+        }
+        _ => {
+            v.extend_from_slice(mac);
+            ("code twice", v)
+        }
+    }
 }
 
 /// Operands known to exercise the carry chains of the Poly1305 limbs (RFC 7539
@@ -270,12 +306,12 @@ impl ChunkWorld {
             Prim::AuthClassic => St::AuthC(crypto_auth_init(key[..32].try_into().unwrap())),
             Prim::AuthObj => {
                 let k: StackByteArray<32> = StackByteArray::try_from(&key[..32]).unwrap();
-                St::AuthO(dryoc::auth::Auth::new(k))
+                St::AuthO(dryoc::auth::Auth::new(k.clone()), dryoc::auth::Auth::new(k.clone()), dryoc::auth::Auth::new(k))
             }
             Prim::OtaClassic => St::OtaC(crypto_onetimeauth_init(key[..32].try_into().unwrap())),
             Prim::OtaObj => {
                 let k: StackByteArray<32> = StackByteArray::try_from(&key[..32]).unwrap();
-                St::OtaO(dryoc::onetimeauth::OnetimeAuth::new(k))
+                St::OtaO(dryoc::onetimeauth::OnetimeAuth::new(k.clone()), dryoc::onetimeauth::OnetimeAuth::new(k.clone()), dryoc::onetimeauth::OnetimeAuth::new(k))
             }
             Prim::ShaClassic => St::ShaC(crypto_hash_sha512_init()),
             Prim::ShaObj => St::ShaO(dryoc::sha512::Sha512::new()),
@@ -294,9 +330,17 @@ impl ChunkWorld {
             St::Gh3264(s) => s.update(chunk),
             St::Gh3232Vec(s) => s.update(chunk),
             St::AuthC(s) => crypto_auth_update(s, chunk),
-            St::AuthO(s) => s.update(&v),
+            St::AuthO(s, t, u) => {
+                s.update(&v);
+                t.update(&v);
+                u.update(&v);
+            }
             St::OtaC(s) => crypto_onetimeauth_update(s, chunk),
-            St::OtaO(s) => s.update(&v),
+            St::OtaO(s, t, u) => {
+                s.update(&v);
+                t.update(&v);
+                u.update(&v);
+            }
             St::ShaC(s) => crypto_hash_sha512_update(s, chunk),
             St::ShaO(s) => s.update(chunk),
             St::SignC(a, b) => {
@@ -323,9 +367,9 @@ impl ChunkWorld {
                     Prim::GhClassic { outlen, keylen } => (*outlen, *keylen),
                     _ => unreachable!(),
                 };
-                let mut a = vec![0u8; outlen];
+                let mut a = vec![0xA5u8; outlen]; // dirty output buffers, differently dirty
                 crypto_generichash_final(s, &mut a).expect("gh final");
-                let mut b = vec![0u8; outlen];
+                let mut b = vec![0x3Cu8; outlen];
                 crypto_generichash(&mut b, fed, if keylen > 0 { Some(&key[..keylen]) } else { None }).expect("gh oneshot");
                 (a, b, None)
             }
@@ -365,37 +409,50 @@ impl ChunkWorld {
                 (a, b, None)
             }
             St::AuthC(s) => {
-                let mut a = [0u8; 32];
+                let mut a = [0xA5u8; 32];
                 crypto_auth_final(s, &mut a);
-                let mut b = [0u8; 32];
+                let mut b = [0x3Cu8; 32];
                 crypto_auth(&mut b, fed, key[..32].try_into().unwrap());
                 let ok = crypto_auth_verify(&a, fed, key[..32].try_into().unwrap()).is_ok();
                 (a.to_vec(), b.to_vec(), Some(ok))
             }
-            St::AuthO(s) => {
+            St::AuthO(s, t, u) => {
                 let k: StackByteArray<32> = StackByteArray::try_from(&key[..32]).unwrap();
                 let a = s.finalize_to_vec();
-                let b = dryoc::auth::Auth::compute_to_vec(k, &fed.to_vec());
-                (a, b, None)
+                let b = dryoc::auth::Auth::compute_to_vec(k.clone(), &fed.to_vec());
+                let ok = t.verify(&a).is_ok();
+                // a wrong candidate: the incremental verifier and the one-shot verifier must agree
+                let (cname, cand) = wrong_candidate(&a, self.fed + key[0] as usize);
+                let fedv = fed.to_vec();
+                let inc = guarded(|| u.verify(&cand).is_ok());
+                let one = guarded(|| dryoc::auth::Auth::compute_and_verify(&cand, k, &fedv).is_ok());
+                self.parity = Some((cname, matches!(inc, Ok(true)), matches!(one, Ok(true))));
+                (a, b, Some(ok))
             }
             St::OtaC(s) => {
-                let mut a = [0u8; 16];
+                let mut a = [0xA5u8; 16];
                 crypto_onetimeauth_final(s, &mut a);
-                let mut b = [0u8; 16];
+                let mut b = [0x3Cu8; 16];
                 crypto_onetimeauth(&mut b, fed, key[..32].try_into().unwrap());
                 let ok = crypto_onetimeauth_verify(&a, fed, key[..32].try_into().unwrap()).is_ok();
                 (a.to_vec(), b.to_vec(), Some(ok))
             }
-            St::OtaO(s) => {
+            St::OtaO(s, t, u) => {
                 let k: StackByteArray<32> = StackByteArray::try_from(&key[..32]).unwrap();
                 let a = s.finalize_to_vec();
-                let b = dryoc::onetimeauth::OnetimeAuth::compute_to_vec(k, &fed.to_vec());
-                (a, b, None)
+                let b = dryoc::onetimeauth::OnetimeAuth::compute_to_vec(k.clone(), &fed.to_vec());
+                let ok = t.verify(&a).is_ok();
+                let (cname, cand) = wrong_candidate(&a, self.fed + key[0] as usize);
+                let fedv = fed.to_vec();
+                let inc = guarded(|| u.verify(&cand).is_ok());
+                let one = guarded(|| dryoc::onetimeauth::OnetimeAuth::compute_and_verify(&cand, k, &fedv).is_ok());
+                self.parity = Some((cname, matches!(inc, Ok(true)), matches!(one, Ok(true))));
+                (a, b, Some(ok))
             }
             St::ShaC(s) => {
-                let mut a = [0u8; 64];
+                let mut a = [0xA5u8; 64];
                 crypto_hash_sha512_final(s, &mut a);
-                let mut b = [0u8; 64];
+                let mut b = [0x3Cu8; 64];
                 crypto_hash_sha512(&mut b, fed);
                 (a.to_vec(), b.to_vec(), None)
             }
@@ -407,12 +464,12 @@ impl ChunkWorld {
             St::SignC(signer, verifier) => {
                 let seed: [u8; 32] = key[..32].try_into().unwrap();
                 let (pk, sk) = crypto_sign_seed_keypair(&seed);
-                let mut a = [0u8; 64];
+                let mut a = [0xA5u8; 64];
                 crypto_sign_final_create(signer, &mut a, &sk).expect("final_create");
                 // reference: the single-update run over the same bytes
                 let mut r = crypto_sign_init();
                 crypto_sign_update(&mut r, fed);
-                let mut b = [0u8; 64];
+                let mut b = [0x3Cu8; 64];
                 crypto_sign_final_create(r, &mut b, &sk).expect("final_create ref");
                 let ok = crypto_sign_final_verify(verifier, &a, &pk).is_ok();
                 (a.to_vec(), b.to_vec(), Some(ok))
@@ -492,7 +549,7 @@ impl World for ChunkWorld {
             None => (pattern(cfg.fill, cfg.msg_len), pattern(cfg.key_fill * 4 + 1, 64)),
         };
         let st = Self::init_state(cfg, &key);
-        ChunkWorld { cfg: cfg.clone(), msg, key, fed: 0, st, finalised: false, n_events: 0 }
+        ChunkWorld { cfg: cfg.clone(), msg, key, fed: 0, st, finalised: false, n_events: 0, parity: None }
     }
 
     fn next_event(&mut self, rng: &mut Rng) -> Option<Event> {
@@ -599,6 +656,17 @@ impl World for ChunkWorld {
                         site(&[("primitive", flavour.split('.').next().unwrap()), ("flavour", flavour), ("backend", backend_name())]),
                         format!("after feeding {} bytes in pieces the incremental result {} differs from the one-shot result {}", self.fed, hex(&a), hex(&b)),
                     );
+                }
+                if let Some((cname, inc, one)) = self.parity.take() {
+                    out.probe("verify.parity_compared");
+                    if inc != one {
+                        out.violate(
+                            "C08",
+                            "c08.verify_parity",
+                            site(&[("flavour", flavour), ("candidate", cname), ("backend", backend_name())]),
+                            format!("a wrong authenticator ({}) after feeding {} bytes in pieces: the incremental verifier {} it, the one-shot verifier over the same bytes {} it", cname, self.fed, if inc { "accepts" } else { "does not accept" }, if one { "accepts" } else { "does not accept" }),
+                        );
+                    }
                 }
                 if verify == Some(false) {
                     out.violate(
